@@ -305,7 +305,9 @@ namespace GeographicLib {
     real omg12 = 0, somg12 = 2, comg12 = 0;
     if (!meridian &&
         sbet1 == 0 &&   // and sbet2 == 0
-        (_f <= 0 || lon12s >= _f * Math::hd)) {
+        // Written as a single comparison so that it is false if lon12 is a
+        // NaN (and the NaN is then passed on by the general solution)
+        lon12s >= (_f > 0 ? _f : 0) * Math::hd) {
 
       // Geodesic runs along equator
       calp1 = calp2 = 0; salp1 = salp2 = 1;
